@@ -116,7 +116,13 @@ def required_entries(prog, non_root):
     return req
 
 
-def check_doc(res, doc, what, case):
+def subroutines(prog, path=()):
+    for c in prog.children:
+        yield path + (c.name,), c
+        yield from subroutines(c, path + (c.name,))
+
+
+def check_doc(res, doc, what, case, sub_path=None, which=None):
     from bartiq.integrations.latex import routine_to_latex
 
     # expectations are read off a pristine copy: the SAME document object is rendered four times in a row, and rendering must
@@ -130,11 +136,11 @@ def check_doc(res, doc, what, case):
                 out = routine_to_latex(doc, show_non_root_resources=non_root, paged=paged)
             except Exception as e:
                 res.violation("failing-input", f"routine_to_latex raised {type(e).__name__} on {what} (show_non_root_resources={non_root}, paged={paged})",
-                              {"qref": case.qref, "form": what, "show_non_root_resources": non_root, "paged": paged}, str(e)[:300], "text")
+                              {"qref": case.qref, "subroutine": list(sub_path) if sub_path else None, "of": which, "form": what, "show_non_root_resources": non_root, "paged": paged}, str(e)[:300], "text")
                 return False
             text = "\n".join(out) if paged else out
             if not isinstance(text, str) or not text.strip():
-                res.violation("failing-input", f"routine_to_latex returned no text for {what}", {"qref": case.qref, "form": what}, repr(out)[:100], "text")
+                res.violation("failing-input", f"routine_to_latex returned no text for {what}", {"qref": case.qref, "subroutine": list(sub_path) if sub_path else None, "of": which, "form": what}, repr(out)[:100], "text")
                 return False
             import collections
 
@@ -143,11 +149,11 @@ def check_doc(res, doc, what, case):
                 # two subroutines with the same name in different scopes need one entry EACH
                 if text.count(sub) < need[sub]:
                     res.violation("failing-input", f"rendering of {what} has no entry for {desc} (show_non_root_resources={non_root}, paged={paged})",
-                                  {"qref": case.qref, "form": what, "show_non_root_resources": non_root, "paged": paged}, {"missing": sub, "text": text[:1500]}, sub)
+                                  {"qref": case.qref, "subroutine": list(sub_path) if sub_path else None, "of": which, "form": what, "show_non_root_resources": non_root, "paged": paged}, {"missing": sub, "text": text[:1500]}, sub)
                     return False
             if doc.model_dump_json() != before:
                 res.violation("failing-input", f"routine_to_latex modified {what} passed to it (show_non_root_resources={non_root}, paged={paged})",
-                              {"qref": case.qref, "form": what, "history": "renderings of the same object in a row"}, None, "unchanged document")
+                              {"qref": case.qref, "subroutine": list(sub_path) if sub_path else None, "of": which, "form": what, "history": "renderings of the same object in a row"}, None, "unchanged document")
                 return False
     return True
 
@@ -165,6 +171,20 @@ def oracle(case, res, extra):
         cdoc = None
     if cdoc is not None and not check_doc(res, cdoc, "the compiled document", case):
         return
+    # every subroutine is a routine bartiq accepts too: rendered as a document of its own (its repetition, if it is a repetition
+    # wrapper, is then the TOP-LEVEL repetition section — the only place where the sequence kind is rendered)
+    for which, d in (("source", doc), ("compiled", cdoc)):
+        if d is None:
+            continue
+        for path, sub in subroutines(d.program):
+            if sub.repetition is None and (case.seed + len(path)) % 3:
+                continue
+            res.stats["subroutines_rendered_as_documents"] += 1
+            if sub.repetition is not None:
+                res.stats["top_level_repetition_" + str(getattr(sub.repetition.sequence, "type", "?"))] += 1
+            sdoc = type(d)(version="v1", program=sub.model_copy(deep=True))
+            if not check_doc(res, sdoc, f"subroutine {'.'.join(path)} of the {which} document", case, sub_path=path, which=which):
+                return
     feats = set()
     for p in doc.program.input_params + [r.name for r in doc.program.resources]:
         feats.add(f"underscores={min(p.count('_'), 2)}")
@@ -269,9 +289,14 @@ def replay(payload):
     inp = payload["input"]
     print("recorded:", payload.get("what"))
     doc = schema(inp["qref"])
-    if inp.get("form") == "the compiled document":
+    if inp.get("form") == "the compiled document" or inp.get("of") == "compiled":
         st, r = try_compile(inp["qref"])
         doc = r.to_qref()
+    if inp.get("subroutine"):
+        sub = doc.program
+        for nm in inp["subroutine"]:
+            sub = next(c for c in sub.children if c.name == nm)
+        doc = type(doc)(version="v1", program=sub)
     try:
         print(routine_to_latex(doc, show_non_root_resources=inp.get("show_non_root_resources", True), paged=inp.get("paged", False)))
     except Exception as e:
